@@ -30,7 +30,7 @@ REQ = ("From RV Require Import Prelude.\nFrom Tensor Require Import Overlap.\n"
        "From LayoutOps Require Import ArrayModel LayoutOps ModelC09.\nOpen Scope N_scope.")
 THEOREMS = ["C09_clamp_resolves", "C09_index_range_is_python_slice", "C09_index_range_no_panic",
             "C09_slice_denotes", "C09_slice_ok_defined", "C09_slice_error", "C09_slice_release_mode",
-            "C09_slice_copy_is_numpy",
+            "C09_slice_copy_is_numpy", "C09_slice_copy_error", "C09_clip_dim_denotes",
             "C09_index_axis_denotes", "C09_index_axis_error", "C09_slice_axis_denotes", "C09_slice_axis_error",
             "C09_split_denotes", "C09_split_error",
             "C09_permuted_denotes", "C09_permuted_error", "C09_transposed_denotes",
